@@ -238,7 +238,12 @@ def judgeCase (_k : Nat) (lines : List String) : Verdict := Id.run do
         | some e =>
           let want := (pt.drop e.toNat)
           if r == "eof" then
-            if !mutated && !want.isEmpty then vio := vio ++ [("C16.seek-then-read-wrong-bytes", s!"op{i}:eof-at-{e}-of-{pt.length}")]
+            if !want.isEmpty then
+              -- a clean end before the end of the plaintext: after a mutation that is a part read as a shorter one
+              if mutated then
+                let ctx := if failedBefore && path == "seek" then ".reader-used-after-failed-read" else ""
+                vio := vio ++ [("C16.tampered-part-read-without-error" ++ ctx, s!"op{i}:eof-at-{e}-of-{pt.length}")]
+              else vio := vio ++ [("C16.seek-then-read-wrong-bytes", s!"op{i}:eof-at-{e}-of-{pt.length}")]
           else if r == "err" then
             if !mutated then vio := vio ++ [("C16.intact-part-failed-to-read", s!"op{i}")]
           else
